@@ -103,6 +103,16 @@ fn ed_pk8(seed: u64) -> Vec<u8> {
     v
 }
 
+/// PKCS#8 private key document of a spec (for key-file fault injection).
+pub fn pkcs8_of(spec: KeySpec) -> Vec<u8> {
+    match spec.kind {
+        KeyKind::Ed | KeyKind::EdPk8 => ed_pk8(spec.seed),
+        KeyKind::Ecdsa => ecdsa_pk8(spec.seed),
+        KeyKind::Rsa2048S256 | KeyKind::Rsa2048S512 => RSA2048.to_vec(),
+        KeyKind::Rsa4096S256 | KeyKind::Rsa4096S512 => RSA4096.to_vec(),
+    }
+}
+
 pub fn make_key(spec: KeySpec) -> Key {
     let private = match spec.kind {
         KeyKind::Ed => {
